@@ -235,6 +235,7 @@ func main() {
 		evid.Infra("%v", err)
 	}
 	defer os.RemoveAll(scratch)
+	evid.CleanupDir(scratch)
 	_ = filepath.Join
 	if p := evid.ReplayPayload(); p != nil {
 		var h []int
